@@ -27,8 +27,7 @@ DEVTEXT = {"zip": "unpack() accepts entry names whose cleaned form starts with '
 
 QUICK = ["Unpack-spell-quick.cfg", "Unpack-links-quick.cfg", "Unpack-seq-quick.cfg", "Unpack-misc-quick.cfg"]
 THOROUGH = ["Unpack-spell.cfg", "Unpack-links.cfg", "Unpack-seq.cfg", "Unpack-seq4.cfg", "Unpack-misc.cfg"]
-SANITY = [("Unpack-sanity-outside.cfg", "SanityOutside"), ("Unpack-sanity-escaping.cfg", "SanityEscaping"),
-          ("Unpack-sanity-devs.cfg", "SanityAsBuiltContained")]
+SANITY = [("Unpack-sanity-outside.cfg", "SanityOutside"), ("Unpack-sanity-escaping.cfg", "SanityEscaping")]
 
 
 def content(k):
@@ -171,8 +170,8 @@ def run(ck, replay, cfgs=None, verbose=False):
                     s = vf.tlc("Unpack", cfg, workers=4, collect=False, timeout=300)
                     if s.violated != inv:
                         raise vf.NotAVerdict("%s: sanity invariant %s not violated (vacuous model)" % (cfg, inv))
-                r = vf.require_ok(vf.tlc("Unpack", "Unpack-nodevs.cfg", collect=False, timeout=600), "Unpack-nodevs.cfg")
-                ck.add_tlc("Unpack-nodevs.cfg", r, consts_of("Unpack-nodevs.cfg"))
+                r = vf.require_ok(vf.tlc("Unpack", "Unpack-ideal.cfg", collect=False, timeout=900), "Unpack-ideal.cfg")
+                ck.add_tlc("Unpack-ideal.cfg", r, consts_of("Unpack-ideal.cfg"))
             for cfg in (cfgs or (THOROUGH if ck.thorough() else QUICK)):
                 cf = os.path.join(work, cfg + ".ndjson")
                 r = vf.require_ok(vf.tlc("Unpack", cfg, timeout=3000, case_file=cf, heap="8g"), cfg)
